@@ -160,14 +160,19 @@ def t_orig(c):
     for j, t in enumerate(c["ts"], 1):
         tt = dict(t, stop_w=t["stop"], rep_w=t["rep"], skip_w=t["skip"])
         a.append(t_attr(j, tt, [(x, j) for x in t["own"]]))
-    return " ".join(a) + " struct S { a: V }"
+    return " ".join(a) + t_body(c)
+
+
+def t_body(c):
+    # `_ => expr` (default case) exists for enums only
+    return " enum S { A, B }" if any("default_case" in t["own"] for t in c["ts"]) else " struct S { a: V }"
 
 
 def t_unrolled(c):
     a = []
     for j, t in enumerate(c["ts"], 1):
         a.append(t_attr(j, dict(t), [(e["c"], e["t"]) for e in c["eff"][j - 1]]))
-    return " ".join(a) + " struct S { a: V }"
+    return " ".join(a) + t_body(c)
 
 
 def t_writable(c):
@@ -195,8 +200,8 @@ def run(tier, seed):
     ctx = core.Ctx("C14", tier, seed, LEVEL)
     trace, srcs = [], {}
     import streams
-    plan = ([("member", "MC_C14_mq", 20000), ("trait", "MC_C14_tq", None), ("trait", "MC_C14_tq2", None), ("vfield", "MC_C14_vq", None), ("variant", "MC_C14_nq", 16000)] if tier == "quick"
-            else [("member", "MC_C14_mq", None), ("member", "MC_C14_mt", None), ("member", "MC_C14_mt4", None), ("trait", "MC_C14_tq", None), ("trait", "MC_C14_tq2", None),
+    plan = ([("member", "MC_C14_mq", 20000), ("trait", "MC_C14_tq", None), ("trait", "MC_C14_tq2", None), ("trait", "MC_C14_tq3", None), ("vfield", "MC_C14_vq", None), ("variant", "MC_C14_nq", 16000)] if tier == "quick"
+            else [("member", "MC_C14_mq", None), ("member", "MC_C14_mt", None), ("member", "MC_C14_mt4", None), ("trait", "MC_C14_tq", None), ("trait", "MC_C14_tq2", None), ("trait", "MC_C14_tq3", None),
                   ("trait", "MC_C14_tt", None), ("trait", "MC_C14_tt2", None), ("vfield", "MC_C14_vq", None), ("vfield", "MC_C14_vt", None),
                   ("variant", "MC_C14_nq", None), ("variant", "MC_C14_nt", None)])
     for lvl, cfg, cap in plan:
